@@ -168,9 +168,12 @@ SemStep(e) ==
     [] e.op = "sem.valid" -> UNCHANGED svars /\ Note(SValidDemands(e))
     [] e.op = "sem.row" -> UNCHANGED svars /\ Note(RowDemands(e))
     [] e.op = "sem.cmp" -> SemCompare(VerOf(e.a), VerOf(e.b)) /\ Note(CmpDemands2(e))
+    \* one comparison in one direction only (what a caller sorting a list does): the history that a
+    \* later two-way comparison of related identifiers is judged after
+    [] e.op = "sem.one" -> UNCHANGED svars /\ Note(<< <<"C14.sign", Sign(e.res)>> >>)
     [] e.op = "sem.next" -> UNCHANGED svars /\ Note(NextDemands(e))
     [] e.op = "sem.htext" -> UNCHANGED svars /\ Note(HTextDemands(e))
     [] e.op = "giant" -> UNCHANGED svars /\ Note(GiantDemands(e))
 
-IsSemOp(e) == e.op \in {"sem.utext", "sem.set", "sem.univ", "sem.parse", "sem.valid", "sem.row", "sem.cmp", "sem.next", "sem.htext", "giant"}
+IsSemOp(e) == e.op \in {"sem.one", "sem.utext", "sem.set", "sem.univ", "sem.parse", "sem.valid", "sem.row", "sem.cmp", "sem.next", "sem.htext", "giant"}
 =============================================================================
